@@ -43,7 +43,7 @@ def build(ck):
     ck.assume_note('C01: termination of the rule scan is not proved (no variant); only partial correctness')
     driver.scan(ck, T, 'C01')
     driver.rules_scenarios(ck, T, 'C01')
-    axioms = driver.size_axioms() + A.reduce_axioms()
+    axioms = driver.size_axioms() + A.reduce_axioms() + T.class_axioms()
 
     # ------------------------------------------------------------------ CompositionOperator.reduce
     def composition_reduce(S):
@@ -119,3 +119,98 @@ def build(ck):
                      tag='same-structures', exact=False)
         ck.explore(f'{BL}.{cname}.reduce', block_reduce, T, axioms=axioms + A.block_struct_axioms(),
                    contracts=A.block_structure_contracts())
+
+    # ------------------------------------------------------------------ InverseBinaryRule (check + apply)
+    lazy_classes = [c for c in P.subclasses(P.cls('AbstractLazyInverseOperator'), concrete_only=True)]
+
+    def inverse_rule(S):
+        S.oracle = ORACLE
+        X = z3.Const('X', A.Op)
+        Y = z3.Const('Y', A.Op)
+        ci = lazy_classes[S.choose(len(lazy_classes))]
+        side = S.choose(2)                      # the lazy inverse stands on the left / on the right
+        other_is_operand = S.choose(2)          # its neighbour is / is not (necessarily) its own operand
+        inv = S.new(ci.name, operator=X)
+        nb = X if other_is_operand == 0 else Y
+        left, right = (inv, nb) if side == 0 else (nb, inv)
+        # chain typing (precondition of every binary rule: the pair stands in a well-typed chain)
+        ci_, wi_, ii_, oi_ = A.den_of(S.I, inv)
+        S.assume((ii_ == A.outs(nb)) if side == 0 else (A.ins(nb) == oi_))
+        finding = 'C01-pseudo-inverse-shortcut' if ci.name == 'DiagonalInverseOperator' else None
+        if ci.name in A.TRUE_INVERSES:
+            S.assume(A.lem_inverse_cancels(A.denw(X), A.denc(X)))          # LA3 for true inverses only
+        rule = Obj(P.cls('InverseBinaryRule'))
+        chk = S.call(S.I.getattr(rule, 'check'), [left, right])
+        if chk.raised('NoReduction'):
+            return          # declining is always sound (completeness of the rewriting is C07's matter)
+        if not chk.normal:
+            S.oblige('exc', False, tag=f'{ci.name}:check-undeclared-{chk.value.name}', note=str(chk.where))
+            return
+        S.oblige('post', z_eq(nb, X), tag=f'{ci.name}:check-passes-only-for-own-operand')
+        out = S.call(S.I.getattr(rule, 'apply'), [left, right])
+        ok = out.normal and isinstance(out.value, B.PyList) and out.value.seq is None
+        S.oblige('post', bool(ok), tag=f'{ci.name}:apply-returns-a-list')
+        if not ok:
+            return
+        cl, wl, il, ol = A.den_of(S.I, left)
+        cr, wr, ir, orr = A.den_of(S.I, right)
+        if len(out.value.items) == 0:
+            S.oblige('post', z3.And(z3.Concat(wl, wr) == A.EMPTY, cl * cr == 1, ol == ir),
+                     tag=f'{ci.name}:empty-product-only-if-the-pair-is-the-identity', exact=False, finding=finding)
+        else:
+            S.oblige('post', False, tag=f'{ci.name}:unexpected-result')
+    ck.explore(f'{RULES}.InverseBinaryRule.apply', inverse_rule, T, axioms=axioms)
+
+    # ------------------------------------------------------------------ the four block rules
+    KIND = {'BlockRowOperator': 'Row', 'BlockDiagonalOperator': 'Diag', 'BlockColumnOperator': 'Col'}
+    block_rules = [c for c in P.subclasses(P.cls('AbstractBlockDiagonalRule'), concrete_only=True)
+                   if not c.name.startswith('Abstract')]
+
+    def block_rule(S, same_layout):
+        S.oracle = ORACLE
+        rc = block_rules[S.choose(len(block_rules))]
+        rule = Obj(rc)
+        lcls = S.I.getattr(rule, 'left_operator_class').info
+        rcls = S.I.getattr(rule, 'right_operator_class').info
+        kl, kr = KIND[lcls.name], KIND[rcls.name]
+        lb = S.seq('left_blocks', kind='list', sort=A.Op)
+        rb = S.seq('right_blocks', kind='list', sort=A.Op)
+        n, m = to_z3(lb.length), to_z3(rb.length)
+        la, ra = lb.arr, rb.arr
+        k = fresh_int('k')
+        S.assume(z3.And(n >= 1, m >= 1))
+        # constructors' invariants (C10)
+        if kl == 'Row':
+            S.assume(z3.ForAll([k], z3.Implies(z3.And(k >= 0, k < n), A.outs(la[k]) == A.outs(la[0]))))
+        if kr == 'Col':
+            S.assume(z3.ForAll([k], z3.Implies(z3.And(k >= 0, k < m), A.ins(ra[k]) == A.ins(ra[0]))))
+        lblocks, rblocks = B.PyList(None, seq=lb), B.PyList(None, seq=rb)
+        lblocks.treedef, rblocks.treedef = z3.Int('left_treedef'), z3.Int('right_treedef')
+        left, right = S.new(lcls.name, blocks=lblocks), S.new(rcls.name, blocks=rblocks)
+        # the pair stands in a well-typed chain: in-structure tree of left == out-structure tree of right
+        S.assume(A.BLKS[kl + 'in'](la, n) == A.BLKS[kr + 'out'](ra, m))
+        if same_layout:
+            S.assume(z3.And(n == m, lblocks.treedef == rblocks.treedef))
+            S.assume(A.lem_tree_struct_injective(A.BLKS[kl + 'in'], la, A.BLKS[kr + 'out'], ra, n, A.ins, A.outs))
+        chk = S.call(S.I.getattr(rule, 'check'), [left, right])
+        S.oblige('post', chk.normal, tag=f'{rc.name}:check-accepts-its-class-pair')
+        out = S.call(S.I.getattr(rule, 'apply'), [left, right])
+        if not out.normal:
+            S.oblige('exc', out.raised('NoReduction'), tag=f'{rc.name}:only-NoReduction-may-escape:{out.value.name}',
+                     note=str(out.where))
+            return
+        ok = isinstance(out.value, B.PyList) and out.value.seq is None and len(out.value.items) == 1
+        S.oblige('post', bool(ok), tag=f'{rc.name}:returns-one-operator')
+        if not ok:
+            return
+        res = out.value.items[0]
+        c, w, i_, o_ = A.den_of(S.I, res)
+        cl, wl, il, ol = A.den_of(S.I, left)
+        cr, wr, ir, orr = A.den_of(S.I, right)
+        S.oblige('post', z3.And(w == z3.Concat(wl, wr), c == cl * cr), tag=f'{rc.name}:product-preserved (LA4)', exact=False)
+        S.oblige('post', z3.And(i_ == ir, o_ == ol), tag=f'{rc.name}:end-structures-kept', exact=False)
+
+    def block_rule_hook(interp, fi, args, kwargs):
+        return None
+    ck.explore(f'{BL}.AbstractBlockDiagonalRule.apply', lambda S: block_rule(S, True), T, label='same-layout',
+               axioms=axioms + A.block_struct_axioms(), contracts=A.block_structure_contracts())
